@@ -420,9 +420,27 @@ def check_server(prop, tier, replay):
         "trace_events_validated": st["events"], "observations_judged": st["checked"],
         "scenarios": len(scs), "mc_runs": mcs, "fixes_in_tree": fixes(),
     }
+    if prop == "C14":
+        # vacuity guard: every stray kind of ServerCore.tla must actually have been answered by some actor in some run
+        got = {}
+        for rid, evs in st["runs_by_id"].items():
+            last = None
+            for e in evs:
+                if e["ev"] == "obs":
+                    last = e
+            for a in (last or {}).get("actors", []):
+                for x in a.get("strays", []):
+                    k = x.split(":")[0]
+                    got[k] = got.get(k, 0) + 1
+        kinds = ["Schedule", "Run", "Consts", "Validate", "MsgBad", "MsgEarly", "RunEarly", "ConstsBad"]
+        v.coverage["stray_commands_answered"] = {k: got.get(k, 0) for k in kinds}
+        for k in kinds:
+            if got.get(k, 0) == 0:
+                v.spec_drift(f"stray kind {k} of ServerCore.tla was not injected in any run")
     v.assumptions = ["the MPC inside a policy run is the real engine; the spec abstracts it to start/complete/fail",
                      "gate hooks (--cfg polytune_verif) do not change behaviour when released",
-                     "command-queue and per-peer byte-queue capacities (10) are not modelled"]
+                     "command-queue and per-peer message-queue capacities (10) are not modelled in ServerCore; the slow-link "
+                     "scenarios exercise them on the real code"]
     rc = v.finish()
     shutil.rmtree(wd, ignore_errors=True)
     return rc
